@@ -28,7 +28,8 @@ import (
 // a long-running node with the snapshot, a long-running node without it, a node that is stopped and
 // reopened (journal written and loaded as BlockChain.Stop / NewBlockChain do; cold clean caches)
 // at several heights, and one more configuration (tiny caches: tries flushed every block beyond 128,
-// archive, node defaults, ...).
+// archive, node defaults, ...). One replica (replica 0 itself, or a fifth one) runs on a database that
+// records every durable unit: crash images are taken of it and nodes restarted on them (crash.go).
 
 const (
 	coldSlots   = 40    // churn slots 0x100.. : empty in the genesis state
@@ -276,16 +277,18 @@ func longCase(c *core.Case) {
 		}
 	}
 	o.Replicas = []repCfg{cfgByName(first[r.Intn(len(first))]), cfgByName("snapshots-off+small-dirty-cache"), cfgByName("default"), cfgByName(fourth[r.Intn(len(fourth))])}
-	// replica 4: the recorded replica crash images are taken of (crash.go), and the sprayer calls that make disk-layer
-	// merges larger than one database batch (drawn from a stream of their own)
+	// crash images (crash.go): the recorded replica is replica 0 itself or a fifth one, and the sprayer calls make disk-layer
+	// merges larger than one database batch (all drawn from a stream of their own)
 	rc := c.Run.Rng("long-crash", c.I)
 	for s := 3 + rc.Intn(5); s <= plan.Heights-141; s += 7 + rc.Intn(5) {
 		plan.Spray = append(plan.Spray, s)
 	}
-	plan.Crash = drawCrashPlan(rc, c.Run.Quick(), c.I, len(o.Replicas))
-	o.Replicas = append(o.Replicas, crashCfg(plan.Crash.Variant))
-	if plan.Crash.Variant == "node-defaults" {
-		plan.Restart[plan.Crash.Replica] = []int{6 + rc.Intn(5)} // one early clean stop: the only tries this replica ever writes
+	plan.Crash = drawCrashPlan(rc, c.Run.Quick(), c.I, plan.Heights, len(o.Replicas))
+	if plan.Crash.Replica == len(o.Replicas) {
+		o.Replicas = append(o.Replicas, crashCfg(plan.Crash.Variant))
+		if plan.Crash.Variant == crashEarlyStop {
+			plan.Restart[plan.Crash.Replica] = []int{6 + rc.Intn(5)} // one early clean stop: the only tries this replica ever writes
+		}
 	}
 	if runScenario(c, r, o, "long") != nil {
 		c.Run.Count("long_chains", 1)
